@@ -148,6 +148,56 @@ def check_lstsq_case(case, out):
                                               f"b = rhs #{ib}"], "case": {"kind": "lstsq", "id": [m, n, pname, rcond, cutoff, ib]}})
 
 
+def reuse_cases():
+    import numpy as np
+    for m, n in ((3, 3), (4, 2), (2, 5), (5, 4), (6, 6)):
+        k = min(m, n)
+        U, V = orth_factors(m)[-1], orth_factors(n)[-1]
+        for pname, s in sv_patterns(k).items():
+            yield (m, n, U, V, pname, s)
+
+
+def check_reuse_case(case, out):
+    """ONE SVD object, lstsq called with a sequence of per-call settings: every answer must be the truncated solution for the
+    settings of THAT call (no state carried over between calls)"""
+    import numpy as np
+    from xdeps.optimize.matrixutils import SVD
+    m, n, U, V, pname, s = case
+    k = min(m, n)
+    S = np.zeros((m, n))
+    for i in range(k):
+        S[i, i] = s[i]
+    A = U @ S @ V.T
+    b = np.array([1.0 + 0.25 * i * (-1) ** i for i in range(m)])
+    settings = [(None, None), (0.3, None), (1e-3, None), (None, 1), (0.3, 1)] + ([(None, k - 1)] if k >= 3 else [])
+    for first in settings:
+        svd = SVD(A)
+        for j, (rcond, cutoff) in enumerate([first] + settings):
+            keep = kept_indices(s, rcond, cutoff)
+            kwargs = {}
+            if rcond is not None:
+                kwargs["rcond"] = rcond
+            if cutoff is not None:
+                kwargs["sing_val_cutoff"] = cutoff
+            x = svd.lstsq(b, **kwargs)
+            out["evaluations"] += 1
+            if keep is None:
+                out["undecidable"] += 1
+                continue
+            Uk, Vk = U[:, keep], V[:, keep]
+            smin = min([s[i] for i in keep], default=1.0)
+            ref = Vk @ np.diag([1.0 / s[i] for i in keep]) @ Uk.T @ b if keep else np.zeros(n)
+            if x.shape != (n,) or np.linalg.norm(x - ref) > 1e-8 * (np.linalg.norm(ref) + np.linalg.norm(b) / smin + 1e-300) * (max(s[0], 1e-300) / smin):
+                if len(out["issues"]) < 20:
+                    out["issues"].append({"kind": "violation", "property": "C16", "finding": None, "config": {},
+                                          "what": f"SVD.lstsq on a re-used SVD object: call #{j} with rcond={rcond}, sing_val_cutoff={cutoff} (after a call with "
+                                                  f"{first}) returned {x.tolist()}, the solution restricted to the kept singular values is {ref.tolist()}",
+                                          "program": [f"svd = SVD(U diag({s}) V^T)  # {m}x{n} {pname}", f"svd.lstsq(b, {first}) ... svd.lstsq(b, rcond={rcond}, sing_val_cutoff={cutoff})"],
+                                          "case": {"kind": "reuse", "id": [m, n, pname]}})
+                return
+    out["distinct"].add(("reuse", m, n, pname))
+
+
 def check_small_int(shape, out):
     import numpy as np
     from xdeps.optimize.matrixutils import SVD
@@ -227,6 +277,47 @@ def check_linear(spec, out):
         out["issues"].append({"kind": "violation", "property": "C16", "finding": None, "what": what, "config": {},
                               "program": [f"problem: {O.spec_str(spec)}", "opt.step(1)", f"opt.solve(broyden={spec['broyden']})"],
                               "case": {"kind": "linear", "spec": repr(spec)}})
+
+
+def broyden_seq_cases():
+    for fam in ("lin2", "lin2skew", "lin3", "ident3"):
+        F = O.FAMILIES[fam]
+        nk = F["nk"]
+        for x0 in ([0.1] * nk, [2.0 - 0.5 * i for i in range(nk)]):
+            for j in range(nk):
+                for kw in (None, (2.0, 0.5, 4.0)[:nk]):
+                    for first_broyden in (False, True):
+                        yield {"fam": fam, "x0": x0, "kw": kw, "tw": None, "tol": 1e-8, "limits": [(-50.0, 50.0)] * nk, "nsm": 20,
+                               "seq_j": j, "first_broyden": first_broyden}
+
+
+def check_broyden_seq(spec, out):
+    """step (measures a Jacobian) ; the user moves the knobs ; one target and one knob are disabled ; a Broyden step on the remaining
+    (square, linear) problem must land on its solution: for a linear problem the Broyden-carried Jacobian is exact"""
+    out["evaluations"] += 1
+    p = O.Problem(spec)
+    j = spec["seq_j"]
+    what = None
+    try:
+        p.opt.step(1, broyden=spec["first_broyden"])
+        for i in range(p.nk):
+            p.knobs[f"k{i}"] = float(spec["x0"][i]) + 0.37 * (i + 1)
+        p.opt.disable(target=[j], vary=[j])
+        p.opt.step(1, broyden=True)
+        k = p.knob_values()
+        vals = p.f(k)
+        err = max(abs(v - t) for i, (v, t) in enumerate(zip(vals, p.tvals)) if i != j)
+        if err > 1e-6:
+            what = (f"after disabling target {j} and knob {j}, a Broyden step on the remaining linear problem leaves the active targets off by "
+                    f"{err:.3e} (knobs {k!r})")
+    except Exception as e:  # noqa
+        what = f"sequence raised {type(e).__name__}: {e}"
+    out["distinct"].add(("broyden-seq", spec["fam"], tuple(spec["x0"]), j, spec["kw"] is None, spec["first_broyden"]))
+    if what and len(out["issues"]) < 20:
+        out["issues"].append({"kind": "violation", "property": "C16", "finding": None, "what": what, "config": {},
+                              "program": [f"problem: {O.spec_str(spec)}", f"opt.step(1, broyden={spec['first_broyden']})", "knobs moved by the user",
+                                          f"opt.disable(target=[{j}], vary=[{j}])", "opt.step(1, broyden=True)"],
+                              "case": {"kind": "broyden-seq", "spec": repr(spec)}})
 
 
 def _matrix(fam):
@@ -391,6 +482,10 @@ def job(chunk):
             check_scalings(out)
         elif kind == "view":
             check_view(payload, out)
+        elif kind == "reuse":
+            check_reuse_case(payload, out)
+        elif kind == "broyden-seq":
+            check_broyden_seq(payload, out)
     out["distinct"] = {repr(x) for x in out["distinct"]}
     return out
 
@@ -403,6 +498,8 @@ def all_items(tier):
     items += [("linear", s) for s in linear_cases(tier)]
     items += [("scalings", None)]
     items += [("view", c) for c in view_cases()]
+    items += [("reuse", c) for c in reuse_cases()]
+    items += [("broyden-seq", c) for c in broyden_seq_cases()]
     return items
 
 
@@ -423,7 +520,7 @@ def run_job(job_):
     chunks = [[h] for h in heavy] + E.chunked(light, 60)
     r = E.pmap(job, chunks, job_.get("nproc", 1))
     r["distinct_n"] = len(r.pop("distinct", ()))
-    r["items"] = {k: sum(1 for it in items if it[0] == k) for k in ("lstsq", "smallint", "linear", "scalings", "view")}
+    r["items"] = {k: sum(1 for it in items if it[0] == k) for k in ("lstsq", "smallint", "linear", "scalings", "view", "reuse", "broyden-seq")}
     return r
 
 
@@ -454,6 +551,12 @@ def replay(issue):
         check_small_int(A.shape, out)
     elif case["kind"] in ("weights", "rescale"):
         check_scalings(out)
+    elif case["kind"] == "broyden-seq":
+        check_broyden_seq(ast.literal_eval(case["spec"]), out)
+    elif case["kind"] == "reuse":
+        for c in reuse_cases():
+            if [c[0], c[1], c[4]] == case["id"]:
+                check_reuse_case(c, out)
     else:
         want = case["id"]
         for c in lstsq_cases("thorough"):
